@@ -879,7 +879,7 @@ def pickle_check(m, roots_data, followups):
 CLONES = []
 
 
-def clone_check(m, clones, roots, roots_data, followups):
+def clone_check(m, clones, roots, roots_data, followups, redefine=None):
     """C03: a clone made earlier keeps behaving like a fresh manager holding the definitions it was made with, whatever
     was removed or replaced in the original since (and vice versa: the original is not affected by its clones).
     The clone shares the containers; each follow-up is assigned through the clone and through a reference manager
@@ -923,6 +923,16 @@ def clone_check(m, clones, roots, roots_data, followups):
         if e1 != e2 or sa != sb:
             res["problems"].append([p, v, e1, e2, [x for x, y in zip(sa, sb) if x != y][:3], [y for x, y in zip(sa, sb) if x != y][:3]])
             break
+    if redefine:
+        # the clone is a manager of its own: a definition added through it must not show in the original
+        before = canon_ok(m)
+        try:
+            c.set_value(mkref(croots, redefine[0]), mkref(croots, redefine[1]) + 1)
+        except Exception as e:
+            res["redefine_err"] = exc_name(e)
+        after = canon_ok(m)
+        if after != before:
+            res["problems"].append(f"a definition made through the clone changed the indices of the original: {after[:2]}")
     try:
         m.verify()
     except Exception as e:
@@ -1100,7 +1110,7 @@ def run_case(case, opts):
                 # a regenerated copy is kept alive; it shares the containers with the original
                 CLONES.append(m.clone())
             elif kind == "useclone":
-                obs["clone"] = clone_check(m, CLONES, roots, roots_data, op[1])
+                obs["clone"] = clone_check(m, CLONES, roots, roots_data, op[1], op[2] if len(op) > 2 else None)
             elif kind == "freshcheck":
                 obs["fresh"] = fresh_check(m, roots, roots_data, op[1], op[2])
             elif kind == "arm":
